@@ -86,7 +86,7 @@ CLAIMS = {
         "exhaustiveness of grammar-built nodes vs compiler visitors, raise/assert audit, token typing of grammar actions and parser helpers, pegen nullable analysis",
         "Decides that every node the grammar can build is compiled, that parser helpers and the compiler raise only Scenic syntax errors, that "
         "token-typed values are accessed only through TokenInfo fields (error construction cannot fail), that no repetition ranges over a "
-        "nullable item, that error actions do not index possibly-empty components and error reporting does not index past the end of a file, that partial front-end operations (tokenizer line lookup, literal evaluation, literal concatenation) are protected, that temporal nodes outside propositions are syntax errors, that no keyword-only alternative shadows a longer one in an ordered choice, and that the veneer is deactivated in a finally. Does NOT decide totality over all byte strings.",
+        "nullable item, that error actions do not index possibly-empty components and error reporting does not index past the end of a file, that partial front-end operations (tokenizer line lookup, literal evaluation and numeric conversion of token text, literal concatenation) are protected, that emitted try statements are ones compile() accepts, that variables bound to list-valued grammar groups are not handed on as values, that visitors compile every child they re-embed, that temporal nodes outside propositions are syntax errors, that no keyword-only alternative shadows a longer one in an ordered choice, and that the veneer is deactivated in a finally. Does NOT decide totality over all byte strings.",
         "DESIGN.md section 3 C10",
     ),
     "C11": (
@@ -112,7 +112,7 @@ CLAIMS = {
     "C14": (
         "global write/reset accounting, context-manager restore rule, definite-assignment of cleanup reads, must-use token analysis",
         "Decides that every veneer state global is reset in the phase that writes it, that per-run state of the reused top-level scenario is reset, that context managers restore in finally, that the "
-        "simulation cleanup cannot be skipped or crash on unassigned attributes, that a scenario marked as running is registered for cleanup or unmarked when its start fails, that override undo records are kept on every path, and that "
+        "simulation cleanup cannot be skipped or crash on unassigned attributes, that recorders empty what they accumulated on every path, that modules of a failed compilation are purged, that a scenario marked as running is registered for cleanup or unmarked when its start fails, that override undo records are kept on every path, and that "
         "requirement evaluation restores what it rebinds. Does NOT decide third-party simulator cleanup.",
         "DESIGN.md section 3 C14",
     ),
@@ -132,7 +132,7 @@ CLAIMS = {
         "writer/reader format symmetry, fail-closed read dataflow, error-conversion wrapping, RNG-free closure of dependency-serialised nodes, sign domain",
         "Decides struct format/size/tag symmetry of all codecs and headers, that every read fails closed, that decoding errors are "
         "SerializationErrors, that dependency-serialised nodes are deterministic, that run-time samples are recorded and no run-time code draws from the global generators directly, that the record and replay streams are independent and symmetric and go through the conditioned object, and that divergence is a "
-        "magnitude of the difference compared with the tolerance (or an exact comparison) on every path. Does NOT decide round-trip equality for all programs.",
+        "magnitude of the difference compared with the tolerance (or an exact comparison) on every path, and that the options hash keeps distinct option values distinct and skips no key. Does NOT decide round-trip equality for all programs.",
         "DESIGN.md section 3 C18",
     ),
     "C19": (
